@@ -1,9 +1,279 @@
--- line-protocol handler of property C10 (stub: nothing modelled yet)
+-- line-protocol handler of property C10 (Merkle openings); mirrors harness/src/bin/c10.rs for the
+-- `toy` hasher (lines for the real hashers are judged by the harness oracle only: "-")
 import Winter.Drv.Util
+import Winter.Model.Merkle
 
 namespace Drv.C10
+open Model.Merkle
 
-def handle (_toks : List String) : String := "-"
+def M64 : Nat := 18446744073709551616
+
+/-- the toy 64-bit mixing function of the harness (`mix` in c10.rs) -/
+def mix (a b : Nat) : Nat :=
+  let rot := (b * 2147483648) % M64 + b / 8589934592
+  let x := (a * 0x9E3779B97F4A7C15 + rot * 0xBF58476D1CE4E5B9 + 0x94D049BB133111EB) % M64
+  let x := x ^^^ (x / 536870912)
+  let x := (x * 0xD6E8FEB86659FD93) % M64
+  x ^^^ (x / 4294967296)
+
+def toy : Hasher Nat := { merge := mix, dflt := 0 }
+
+def leafOf (seed i : Nat) : Nat := mix ((seed + 1) % M64) i
+def tweak (d : Nat) : Nat := (d + 1) % M64
+def extra : Nat := 0x5a5a5a5a5a5a5a5a
+
+def cks0 : Nat := 14695981039346656037
+def cks (h d : Nat) : Nat := (h * 1099511628211 + d) % M64
+def cksList (h : Nat) (ds : List Nat) : Nat := ds.foldl cks h
+
+def kindStr : Err → String
+  | .fewLeaves => "few-leaves"
+  | .notPow2 => "not-pow2"
+  | .oob => "oob"
+  | .dup => "dup"
+  | .noIdx => "no-idx"
+  | .manyIdx => "many-idx"
+  | .invalid => "invalid"
+
+def unitStr : Res Unit → String
+  | .ok _ => "ok"
+  | .err e => "err:" ++ kindStr e
+  | .panic _ => "panic"
+
+def digStr : Res Nat → String
+  | .ok d => toString d
+  | .err e => "err:" ++ kindStr e
+  | .panic _ => "panic"
+
+def u64? (s : String) : Option Nat :=
+  match s.toNat? with
+  | some n => if n < M64 then some n else none
+  | none => none
+
+def idxs? (s : String) : Option (List Nat) :=
+  if s == "-" then some [] else (s.splitOn ",").mapM u64?
+
+def lensStr (rows : List (List Nat)) : String :=
+  ".".intercalate (rows.map (fun r => toString r.length))
+
+def proofCks (leaves : List Nat) (rows : List (List Nat)) : Nat :=
+  rows.foldl cksList (cksList cks0 leaves)
+
+structure Opening where
+  idxs : List Nat
+  leaves : List Nat
+  nodes : List (List Nat)
+  depth : Nat
+
+def Opening.proof (o : Opening) : BatchProof Nat := { leaves := o.leaves, nodes := o.nodes, depth := o.depth }
+
+def swapAt {α} (l : List α) (a b : Nat) : List α :=
+  match l[a]?, l[b]? with
+  | some x, some y => (l.set a y).set b x
+  | _, _ => l
+
+/-- the mutations of `apply` in c10.rs; `none` = not applicable (`bad-op`) -/
+def applyMut (o : Opening) (m : List String) : Option Opening :=
+  match m with
+  | ["none"] => some o
+  | ["leaf", k] => do
+    let k ← u64? k
+    let d ← o.leaves[k]?
+    some { o with leaves := o.leaves.set k (tweak d) }
+  | ["node", r, c] => do
+    let r ← u64? r
+    let c ← u64? c
+    let row ← o.nodes[r]?
+    let d ← row[c]?
+    some { o with nodes := o.nodes.set r (row.set c (tweak d)) }
+  | ["idx", k, v] => do
+    let k ← u64? k
+    let v ← u64? v
+    let old ← o.idxs[k]?
+    if old = v then none else some { o with idxs := o.idxs.set k v }
+  | ["depth", d] => do
+    let d ← u64? d
+    if d < 256 ∧ d ≠ o.depth then some { o with depth := d } else none
+  | ["dropnode", r] => do
+    let r ← u64? r
+    let row ← o.nodes[r]?
+    if row.isEmpty then none else some { o with nodes := o.nodes.set r row.dropLast }
+  | ["addnode", r] => do
+    let r ← u64? r
+    let row ← o.nodes[r]?
+    some { o with nodes := o.nodes.set r (row ++ [extra]) }
+  | ["droprow", r] => do
+    let r ← u64? r
+    let _ ← o.nodes[r]?
+    some { o with nodes := o.nodes.eraseIdx r }
+  | ["addrow", e] =>
+    if e == "0" then some { o with nodes := o.nodes ++ [[]] }
+    else if e == "1" then some { o with nodes := o.nodes ++ [[extra]] }
+    else none
+  | ["dropleaf", k] => do
+    let k ← u64? k
+    let _ ← o.leaves[k]?
+    some { o with leaves := o.leaves.eraseIdx k }
+  | ["addleaf"] => some { o with leaves := o.leaves ++ [extra] }
+  | ["dropidx", k] => do
+    let k ← u64? k
+    let _ ← o.idxs[k]?
+    some { o with idxs := o.idxs.eraseIdx k }
+  | ["addidx", v] => do
+    let v ← u64? v
+    some { o with idxs := o.idxs ++ [v] }
+  | ["swapidx", a, b] => do
+    let a ← u64? a
+    let b ← u64? b
+    let x ← o.idxs[a]?
+    let y ← o.idxs[b]?
+    if x = y then none else some { o with idxs := swapAt o.idxs a b }
+  | ["swapleaf", a, b] => do
+    let a ← u64? a
+    let b ← u64? b
+    let x ← o.leaves[a]?
+    let y ← o.leaves[b]?
+    if x = y then none else some { o with leaves := swapAt o.leaves a b }
+  | _ => none
+
+/-- depth and seed of a tree op (`head` in c10.rs) -/
+def head? (t : List String) : Option (Nat × Nat) :=
+  match t with
+  | d :: s :: _ => do
+    let d ← u64? d
+    let s ← u64? s
+    if d = 0 ∨ d > 13 ∨ d ≥ 4294967296 then none else some (d, s)
+  | _ => none
+
+def mkTree (depth seed : Nat) : Res (Tree Nat) :=
+  Tree.new toy ((List.range (2 ^ depth)).map (leafOf seed))
+
+def handleNew (t : List String) : String :=
+  match t with
+  | n :: s :: _ =>
+    match u64? n, u64? s with
+    | some n, some s =>
+      if n > 8192 then "bad-op"
+      else
+        match Tree.new toy ((List.range n).map (leafOf s)) with
+        | .ok tr => s!"ok root={digStr tr.root} depth={tr.depth}"
+        | .err e => "err:" ++ kindStr e
+        | .panic _ => "panic"
+    | _, _ => "bad-op"
+  | _ => "bad-op"
+
+def handleSingle (t : List String) : String :=
+  match head? t, t with
+  | some (depth, seed), _ :: _ :: i :: m =>
+    match u64? i, mkTree depth seed with
+    | some idx, .ok tr =>
+      match prove tr idx with
+      | .panic _ => "prove=panic"
+      | .err e => "prove=err:" ++ kindStr e
+      | .ok path =>
+        let mutated : Option (Nat × List Nat) :=
+          match m with
+          | ["none"] => some (idx, path)
+          | ["node", k] => do
+            let k ← u64? k
+            let d ← path[k]?
+            some (idx, path.set k (tweak d))
+          | ["idx", v] => do
+            let v ← u64? v
+            if v = idx then none else some (v, path)
+          | ["trunc", k] => do
+            let k ← u64? k
+            if k < path.length then some (idx, path.take k) else none
+          | ["ext", k] => do
+            let k ← u64? k
+            if k > path.length ∧ k ≤ 300 then some (idx, path ++ List.replicate (k - path.length) extra) else none
+          | _ => none
+        match mutated, tr.root with
+        | some (vi, vp), .ok root =>
+          s!"prove=ok len={path.length} h={cksList cks0 path} verify={unitStr (verify toy root vi vp)}"
+        | none, _ => "bad-op"
+        | _, _ => "panic"
+    | _, _ => "bad-op"
+  | _, _ => "bad-op"
+
+/-- common prefix of the batch ops: the tree, its root and the opening produced by the prover -/
+def openBatch (t : List String) : Except String (Nat × Opening × List String) :=
+  match head? t, t with
+  | some (depth, seed), _ :: _ :: is :: m =>
+    match idxs? is, mkTree depth seed with
+    | some idxs, .ok tr =>
+      match proveBatch toy tr idxs, tr.root with
+      | .panic _, _ => .error "prove=panic"
+      | .err e, _ => .error ("prove=err:" ++ kindStr e)
+      | .ok p, .ok root => .ok (root, { idxs := idxs, leaves := p.leaves, nodes := p.nodes, depth := p.depth }, m)
+      | _, _ => .error "panic"
+    | _, _ => .error "bad-op"
+  | _, _ => .error "bad-op"
+
+def handleBatch (t : List String) : String :=
+  match openBatch t with
+  | .error s => s
+  | .ok (root, op, m) =>
+    let shape := s!"lens={lensStr op.nodes} h={proofCks op.leaves op.nodes}"
+    match applyMut op m with
+    | none => "bad-op"
+    | some op' =>
+      let r1 := getRoot toy op'.proof op'.idxs
+      let r2 := verifyBatch toy root op'.idxs op'.proof
+      s!"prove=ok {shape} root={digStr r1} verify={unitStr r2}"
+
+def handlePaths (t : List String) : String :=
+  match openBatch t with
+  | .error s => s
+  | .ok (root, op, m) =>
+    match applyMut op m with
+    | none => "bad-op"
+    | some op' =>
+      match intoPaths toy op'.proof op'.idxs with
+      | .panic _ => "prove=ok into=panic from=skip"
+      | .err e => s!"prove=ok into=err:{kindStr e} from=skip"
+      | .ok paths =>
+        let total := (paths.map List.length).foldl (· + ·) 0
+        let into := s!"into=ok n={paths.length} t={total} h={paths.foldl cksList cks0}"
+        match fromPaths toy paths op'.idxs with
+        | .panic _ => s!"prove=ok {into} from=panic"
+        | .err _ => s!"prove=ok {into} from=err"
+        | .ok p2 =>
+          let same := decide (p2 = op'.proof)
+          let r2 := verifyBatch toy root op'.idxs p2
+          s!"prove=ok {into} from=ok same={boolStr same} lens={lensStr p2.nodes} d={p2.depth} h={proofCks p2.leaves p2.nodes} verify={unitStr r2}"
+
+def handleSer (t : List String) : String :=
+  match openBatch t with
+  | .error s => s
+  | .ok (_, op, m) =>
+    let full := 1 + (op.nodes.map (fun r => 1 + 8 * r.length)).foldl (· + ·) 0
+    match m with
+    | ["none"] => s!"len={full} de=ok same=1 rest=0"
+    | ["extra"] => s!"len={full} de=ok same=1 rest=1"
+    | ["cut", k] =>
+      match u64? k with
+      | some k => if k < full then s!"len={full} de=err" else "bad-op"
+      | none => "bad-op"
+    | _ => "bad-op"
+
+def realHashers : List String :=
+  ["blake3_256", "blake3_192", "sha3_256", "rp64_256", "rpjive64_256", "rp62_248"]
+
+def handle (toks : List String) : String :=
+  match toks with
+  | op :: h :: rest =>
+    if realHashers.contains h then "-"
+    else if h != "toy" then "bad-op"
+    else
+      match op with
+      | "new" => handleNew rest
+      | "single" => handleSingle rest
+      | "batch" => handleBatch rest
+      | "paths" => handlePaths rest
+      | "ser" => handleSer rest
+      | _ => "bad-op"
+  | _ => "bad-op"
 
 end Drv.C10
 
